@@ -1,1 +1,72 @@
-(* C11 *)
+(* C11 - the template parser is total and its diagnostics are well-formed.  Theorems only. *)
+From Coq Require Import Lia.
+From Ructe Require Import Nom NomFacts Utf8 Spacelike Expression TemplateExpr Template ParseResult Emit Compile ParserProofs DiagProofs.
+Local Open Scope list_scope.
+
+(* every byte sequence (valid UTF-8 or not, any nesting): neither the parser nor the rendering of
+   its diagnostics can panic -- the model has a Panic outcome at every unwrap / index / subtraction
+   / unreachable!() of the Rust code, and none is reachable *)
+Theorem compile_never_panics : forall (uni_esc : N -> bool) (name src : bytes),
+  compile uni_esc name src <> Panicked.
+Proof. exact compile_never_panics_lemma. Qed.
+
+Theorem parse_no_panic : forall src : bytes, parse_template src <> Abort APanic.
+Proof. exact parse_template_no_panic. Qed.
+
+(* every error position the parser records lies inside the input, so `buf.len() - rest.len()`
+   and `buf[0..pos]` cannot panic, and show_errors is total *)
+Theorem errors_are_inside_input : forall (src : bytes) (e : errs),
+  parse_template src = Err e ->
+  Forall (fun ne => fst ne <= length src) e /\ exists d, show_errors src e (b "cargo:warning=") = Some d.
+Proof.
+  intros src e H. pose proof (parse_template_errors_inside src e H) as B.
+  split; [exact B|]. now apply show_errors_total_lemma.
+Qed.
+
+(* a rejection yields at least one diagnostic, and every diagnostic is well-formed: its line
+   number is between 1 and the number of lines of the input, its caret column between 1 and
+   (bytes of that line) + 1, and the echoed line is that source line, or the placeholder exactly
+   when the line is not valid UTF-8 *)
+Theorem reject_has_wellformed_diagnostics : forall (src : bytes) (e : errs),
+  parse_template src = Err e ->
+  exists l, diags src e = Some l /\ l <> [] /\
+    Forall (fun d => exists pos msg, pos <= length src /\ d = locate src pos msg /\
+      let ls := last_nl_end (firstn pos src) 0 0 in
+      1 <= d_line_no d <= S (count_nl src) /\
+      d_line_no d = S (count_nl (firstn ls src)) /\
+      ls <= pos /\ (ls = 0 \/ nth (ls - 1) src 0%N = 10%N) /\
+      1 <= d_col d <= S (length (until_nl (skipn ls src))) /\
+      d_line d = (if utf8_valid (until_nl (skipn ls src)) then until_nl (skipn ls src) else b "(Failed to display line)")) l.
+Proof.
+  intros src e H. destruct (diags_total src e (parse_template_errors_inside src e H)) as [l Hl].
+  exists l. split; [exact Hl|]. split; [exact (diags_nonempty src e l (reject_has_diagnostic_lemma src e H) Hl)|].
+  pose proof (diags_are_locates src e l Hl) as F. eapply Forall_impl; [|exact F]. cbn beta.
+  intros d [pos [msg [Hp Hd]]]. exists pos, msg. split; [exact Hp|]. split; [exact Hd|].
+  pose proof (locate_wellformed src pos msg Hp) as W. cbv zeta in W. rewrite <- Hd in W. cbv zeta. tauto.
+Qed.
+
+(* the echoed segment is a whole line: newline-free, and followed by a newline or the end *)
+Theorem echoed_line_is_a_source_line : forall s : bytes,
+  Forall (fun c => c <> 10%N) (until_nl s) /\ exists t, s = until_nl s ++ t /\ (t = [] \/ exists t', t = 10%N :: t').
+Proof. intros s. split; [apply until_nl_no_nl|apply until_nl_prefix]. Qed.
+
+(* the scanners of the pinned commit did panic: nom's none_of widens a byte >= 0x80 to a two-byte
+   char, so a trailing 0xFF after `*` in a comment (or after `/` in a group) indexes out of range *)
+Lemma legacy_parser_panics :
+  comment_tail_legacy (b " *" ++ [255%N]) = Abort APanic /\
+  expr_gram_legacy 9 NParens (b "(a /" ++ [255%N]) = Abort APanic /\
+  comment_tail (b " *" ++ [255%N]) <> Abort APanic.
+Proof. repeat split; try (vm_compute; reflexivity). vm_compute. discriminate. Qed.
+
+Example witnesses_now_rejected_with_diagnostics :
+  (exists d, compile (fun _ => false) (b "t") (b "@* " ++ [255%N] ++ b " *@ @(") = Rejected d) /\
+  (exists d, compile (fun _ => false) (b "t") (b "@()@* *" ++ [255%N]) = Rejected d) /\
+  (exists d, compile (fun _ => false) (b "t") (b "@()@(a /" ++ [255%N]) = Rejected d).
+Proof. repeat split; eexists; vm_compute; reflexivity. Qed.
+
+Redirect "assumptions/C11.compile_never_panics" Print Assumptions compile_never_panics.
+Redirect "assumptions/C11.parse_no_panic" Print Assumptions parse_no_panic.
+Redirect "assumptions/C11.errors_are_inside_input" Print Assumptions errors_are_inside_input.
+Redirect "assumptions/C11.reject_has_wellformed_diagnostics" Print Assumptions reject_has_wellformed_diagnostics.
+Redirect "assumptions/C11.echoed_line_is_a_source_line" Print Assumptions echoed_line_is_a_source_line.
+Redirect "assumptions/C11.legacy_parser_panics" Print Assumptions legacy_parser_panics.
